@@ -412,7 +412,9 @@ func (c23) Execute(sc *engine.Scenario) *engine.Result {
 		res.Harness = pi.Value + "\n" + pi.Stack
 		return res
 	}
-	if m.CPU.VerifGetRegs().PC != end && m.CPU.VerifGetRegs().PC != end+2 {
+	if pc := m.CPU.VerifGetRegs().PC; sc.Class == "program-long-line" || (pc != end && pc != end+2) {
+		// (the endless store loops never end: a run that stops in the middle of their last jump shows a
+		// program counter that only looks like the end)
 		// the program left its path (only an emulator that mishandles something can cause that): what
 		// was delivered is still judged against the SB stores that were executed
 		if len(executed) > 0 && m.N-lastStoreAt < 4 && len(m.SerialOut) == len(executed)-1 {
